@@ -31,7 +31,24 @@ let icat_of = function 0 -> CatRandom | 1 -> CatInput | 2 -> CatForward | _ -> C
 let zs z = str_of_z z
 let zi i = z_of_int i
 
+let dest_kind op =
+  let b = strip_flavour op in
+  if b == op || String.length b = String.length op then 0 else Char.code op.[String.length op - 1] - 48
+(* destination buffers of the copying family: `cap` guard cells (the harness' exact-size buffer; a back_insert_iterator
+   target has room for 64); the model leg shows what the harness shows: the written prefix and the tail verdict *)
+let guard = z_of_int (-777777)
+let dest_buf dk cap = List.init (if dk = 2 then 64 else cap) (fun _ -> guard)
+let is_guard z = big_of_z z = big_of_z guard
+let fmt_out (d', r) =
+  let k = int_of_nat r in
+  prefix_s d' k ^ (if List.for_all is_guard (drop k d') then "" else " WROTE-PAST-RETURN")
+let fmt_out_backward cap (d', pos) =
+  let p = int_of_nat pos in
+  let rec take n = function [] -> [] | x :: t -> if n <= 0 then [] else x :: take (n - 1) t in
+  zl (drop p d') ^ (if List.for_all is_guard (take p d') then "" else " WROTE-PAST-RETURN")
+
 let run_case op t =
+  let dk = dest_kind op in
   let op = strip_flavour op in
   match op with
   | "swap_ranges_fwd" | "swap_array" ->
@@ -203,44 +220,64 @@ let run_case op t =
            ignore k;
            (res_s fmt m,
             if full then "na" else if stable then "ok " ^ zl (stable_sort_spec lt l) else "ok 1 1")
-       | "copy" | "move" | "copy_in" | "copy_backward" | "move_backward" ->
-           let l = next_zlist t in ("ok " ^ zl (copy l), "ok " ^ zl l)
+       | "copy" | "move" | "copy_in" ->
+           let l = next_zlist t in
+           (res_s fmt_out (copy_out l (dest_buf dk (List.length l)) O), "ok " ^ zl l)
+       | "copy_backward" | "move_backward" ->
+           let l = next_zlist t in
+           let cap = List.length l in
+           (res_s (fmt_out_backward cap) (copy_backward_out l (dest_buf 0 cap) (nat_of_int cap)), "ok " ^ zl l)
        | "reverse_copy" ->
-           let l = next_zlist t in (res_s zl (reverse_copy l), "ok " ^ zl (List.rev l))
+           let l = next_zlist t in
+           (res_s fmt_out (reverse_copy_out l (dest_buf dk (List.length l)) O), "ok " ^ zl (List.rev l))
        | "copy_n" ->
            let n = next_z t in let l = next_zlist t in
            let ni = Big.to_int (big_of_z n) in
-           (res_s zl (copy_n l n), if ni <= List.length l then "ok " ^ zl (copy_n_spec l (nat_of_int ni)) else "na")
+           (res_s fmt_out (copy_n_out l n (dest_buf dk (List.length l)) O),
+            if ni <= List.length l then "ok " ^ zl (copy_n_spec l (nat_of_int ni)) else "na")
        | "copy_if" -> let id = next_z t in let l = next_zlist t in
-           ("ok " ^ zl (copy_if (pred_of id) l), "ok " ^ zl (List.filter (pred_of id) l))
+           (res_s fmt_out (copy_if_out (pred_of id) l (dest_buf dk (List.length l)) O), "ok " ^ zl (List.filter (pred_of id) l))
        | "remove_copy_if" -> let id = next_z t in let l = next_zlist t in
-           ("ok " ^ zl (remove_copy_if (pred_of id) l), "ok " ^ zl (remove_if_spec (pred_of id) l))
+           (res_s fmt_out (remove_copy_if_out (pred_of id) l (dest_buf dk (List.length l)) O), "ok " ^ zl (remove_if_spec (pred_of id) l))
        | "remove_copy" -> let id = next_z t in let l = next_zlist t in
            let p = fun x -> big_of_z x = big_of_z id in
-           ("ok " ^ zl (remove_copy_if p l), "ok " ^ zl (remove_if_spec p l))
-       | "fill" | "fill_n" | "generate" | "generate_n" ->
-           let n = next_z t in let v = next_z t in let len = next_int t in
-           let cnt = if nm = "fill" || nm = "generate" then len else max 0 (Big.to_int (big_of_z n)) in
-           let r = if nm = "fill" || nm = "fill_n" then fill_n (z_of_int cnt) v else generate_from v (nat_of_int cnt) in
-           let s = List.init cnt (fun i -> if nm = "fill" || nm = "fill_n" then v else z_of_big (Big.add (big_of_z v) (Big.of_int i))) in
+           (res_s fmt_out (remove_copy_if_out p l (dest_buf dk (List.length l)) O), "ok " ^ zl (remove_if_spec p l))
+       | "fill" | "generate" ->
+           (* in place over the whole range [first, last): no separate destination *)
+           let _n = next_z t in let v = next_z t in let len = next_int t in
+           let r = if nm = "fill" then fill_n (z_of_int len) v else generate_from v (nat_of_int len) in
+           let s = List.init len (fun i -> if nm = "fill" then v else z_of_big (Big.add (big_of_z v) (Big.of_int i))) in
            ("ok " ^ zl r, "ok " ^ zl s)
+       | "fill_n" | "generate_n" ->
+           let n = next_z t in let v = next_z t in let len = next_int t in
+           let cnt = max 0 (Big.to_int (big_of_z n)) in
+           let m = if nm = "fill_n" then fill_n_out n v (dest_buf dk len) O
+                   else generate_n_out n (fun s -> (s, z_of_big (Big.succ (big_of_z s)))) v (dest_buf dk len) O in
+           let s = List.init cnt (fun i -> if nm = "fill_n" then v else z_of_big (Big.add (big_of_z v) (Big.of_int i))) in
+           (res_s fmt_out m, "ok " ^ zl s)
        | "replace_if" | "replace" ->
            let id = next_z t in let nv = next_z t in let l = next_zlist t in
            let p = if nm = "replace" then (fun x -> big_of_z x = big_of_z id) else pred_of id in
            ("ok " ^ zl (replace_if p nv l), "ok " ^ zl (List.map (fun x -> if p x then nv else x) l))
        | "transform1" -> let id = next_z t in let l = next_zlist t in
-           ("ok " ^ zl (transform1 (fun1_of id) l), "ok " ^ zl (List.map (fun1_of id) l))
+           (res_s fmt_out (transform1_out (fun1_of id) l (dest_buf dk (List.length l)) O), "ok " ^ zl (List.map (fun1_of id) l))
        | "transform2" -> let id = next_z t in let l1 = next_zlist t in let l2 = next_zlist t in
-           (res_s zl (transform2 (fun2_of id) l1 l2),
+           (res_s fmt_out (transform2_out (fun2_of id) l1 l2 (dest_buf dk (List.length l1)) O),
             if List.length l2 >= List.length l1 then
               "ok " ^ zl (List.mapi (fun i a -> fun2_of id a (List.nth l2 i)) l1) else "na")
        | "rotate_copy" -> let m = next_nat t in let l = next_zlist t in
-           ("ok " ^ zl (rotate_copy l m), "ok " ^ zl (rotate_copy_spec l m))
+           (res_s fmt_out (rotate_copy_out l m (dest_buf dk (List.length l)) O), "ok " ^ zl (rotate_copy_spec l m))
        | "unique_copy" -> let id = next_z t in let l = next_zlist t in
-           ("ok " ^ zl (unique_copy (eqv_of id) l), "ok " ^ zl (unique_spec (eqv_of id) l))
+           (res_s fmt_out (unique_copy_out (eqv_of id) l (dest_buf 0 (List.length l)) O), "ok " ^ zl (unique_spec (eqv_of id) l))
        | "partition_copy" -> let id = next_z t in let l = next_zlist t in
            let fmt (a, b) = zl a ^ " " ^ zl b in
-           ("ok " ^ fmt (partition_copy (pred_of id) l), "ok " ^ fmt (partition_copy_spec (pred_of id) l))
+           let fmt2 ((d1, r1), (d2, r2)) =
+             let k1 = int_of_nat r1 and k2 = int_of_nat r2 in
+             prefix_s d1 k1 ^ " " ^ prefix_s d2 k2
+             ^ (if List.for_all is_guard (drop k1 d1) && List.for_all is_guard (drop k2 d2) then "" else " WROTE-PAST-RETURN") in
+           let cap = List.length l in
+           (res_s fmt2 (partition_copy_out (pred_of id) l (dest_buf dk cap) O (dest_buf dk cap) O),
+            "ok " ^ fmt (partition_copy_spec (pred_of id) l))
        | _ -> raise Not_found)
 
 let () = main run_case
